@@ -24,6 +24,7 @@ func main() {
 	harness.Main("C20", "exploration",
 		harness.Layer{Name: "complete", Run: func(h *harness.H) { layer(h, "complete", false, h.N(400, 8000)) }},
 		harness.Layer{Name: "nonblock", Run: func(h *harness.H) { layer(h, "nonblock", true, h.N(96, 2000)) }},
+		harness.Layer{Name: "resub-empty", Run: layerResubEmpty},
 	)
 }
 
